@@ -133,6 +133,9 @@ class WordRegions:
             try:
                 df0 = compute_features(sig, 64, (6, 14), center_extrema=centre, threshold_kwargs=dict(S.T0))
             except Exception as e:      # noqa
+                from bcmc.pipe import precondition
+                if not precondition(sig, S.resolve(('trough',) if centre == 'trough' else ()))[0]:
+                    continue          # e.g. an all-zero word: no cycle to segment, outcome not defined by the property
                 return VIOL({'kind': 'raise', 'exc': type(e).__name__, 'site': 'compute_features'},
                             'compute_features raised %s: %s' % (type(e).__name__, str(e)[:160]))
             if len(df0) < 3:
